@@ -146,6 +146,13 @@ Lemma col_inside_mc off ts : col_inside (rho off) (mc ts) = col_inside off ts.
 Proof. destruct ts as [|[t c'] r]; [reflexivity|]. rewrite mc_cons. cbn [col_inside]. apply rho_leb. Qed.
 Lemma head_is_eol_mc ts : head_is_eol (mc ts) = head_is_eol ts.
 Proof. destruct ts as [|[t c'] r]; [reflexivity|]. rewrite mc_cons. destruct t; reflexivity. Qed.
+Lemma field_name_mc x ts : field_name x (mc ts) = (fst (field_name x ts), mc (snd (field_name x ts))).
+Proof.
+  unfold field_name. rewrite skip_eol_mc. destruct (skip_eol ts) as [|[t1 c1] [|[t2 c2] x2]]; try reflexivity.
+  - destruct t1; reflexivity.
+  - rewrite !mc_cons. destruct t1; try reflexivity. destruct t2; try reflexivity.
+    cbn [fst snd]. rewrite skip_eol_mc. reflexivity.
+Qed.
 Lemma is_default_mr_mc ts : is_default_mr (mc ts) = is_default_mr ts.
 Proof. destruct ts as [|[t c] [|[t2 c2] r]]; try reflexivity. Qed.
 Lemma is_slit_rule_mc ts : is_slit_rule (mc ts) = is_slit_rule ts.
@@ -168,6 +175,8 @@ Definition R_all (n : nat) : Prop :=
   (forall off ts, p_atoms n (rho off) (mc ts) = rmap (p_atoms n off ts)) /\
   (forall off ts, p_atom n (rho off) (mc ts) = rmap (p_atom n off ts)) /\
   (forall off ts, p_commas n (rho off) (mc ts) = rmap (p_commas n off ts)) /\
+  (forall off ts, p_semis n (rho off) (mc ts) = rmap (p_semis n off ts)) /\
+  (forall off ts, p_fields n (rho off) (mc ts) = rmap (p_fields n off ts)) /\
   (forall off ts, p_rules n (rho off) (mc ts) = rmap (p_rules n off ts)) /\
   (forall off ts, p_rule n (rho off) (mc ts) = rmap (p_rule n off ts)) /\
   (forall off ts, p_urules n (rho off) (mc ts) = rmap (p_urules n off ts)) /\
@@ -189,7 +198,7 @@ Lemma relabel_all : forall n, R_all n.
 Proof.
   induction n as [|n IH].
   - unfold R_all. repeat split; intros; reflexivity.
-  - destruct IH as (Hexpr & Hbin & Hterm & Hif & Hif1 & Hifnl & Hatoms & Hatom & Hcommas & Hrules & Hrule & Hurules & Hsrules & Hstmt & Hblock & Hstmts).
+  - destruct IH as (Hexpr & Hbin & Hterm & Hif & Hif1 & Hifnl & Hatoms & Hatom & Hcommas & Hsemis & Hfields & Hrules & Hrule & Hurules & Hsrules & Hstmt & Hblock & Hstmts).
     unfold R_all. repeat split.
     + (* p_expr *) intros off ts. cbn [p_expr]. rewrite Hterm. sub_res. apply Hbin.
     + (* p_binafter *) intros off cur ts. cbn [p_binafter]. rewrite skip_eol_mc.
@@ -206,6 +215,7 @@ Proof.
       * (* TFUN *) rewrite span_until_mc. destruct (span_until is_arrow r) as [ps r1]. cbn [fst snd].
         destruct r1 as [|[t2 c2] r2]; [reflexivity|]. rewrite mc_cons.
         destruct t2; try reflexivity. rewrite skip_eol_mc, Hblock. sub_res.
+      * (* TLS *) rewrite <- mc_cons. rewrite Hatom. sub_res.
     + (* p_if *) intros off ts. cbn [p_if]. rewrite Hexpr. sub_res.
       destruct l as [|[t1 c1] r2]; [reflexivity|]. rewrite mc_cons.
       destruct t1; try reflexivity. rewrite head_is_eol_mc.
@@ -240,13 +250,27 @@ Proof.
            match r2 with (TRP, _) :: r3 => Ok (APar (e :: es), r3) | _ => Reject end)).
       { intros r'. rewrite Hexpr. sub_res. rewrite Hcommas. sub_res.
         destruct l1 as [|[t3 c3] r4]; [reflexivity|]. rewrite mc_cons. destruct t3; reflexivity. }
-      destruct r as [|[t2 c2] r2].
-      * apply (PAR []).
-      * rewrite mc_cons.
-        destruct t2; try (rewrite <- mc_cons; apply PAR). reflexivity.
+      * (* TLP *) destruct r as [|[t2 c2] r2].
+        -- apply (PAR []).
+        -- rewrite mc_cons.
+           destruct t2; try (rewrite <- mc_cons; apply PAR). reflexivity.
+      * (* TLB *) rewrite Hfields. sub_res.
+        destruct l0 as [|[t3 c3] r4]; [reflexivity|]. rewrite mc_cons. destruct t3; reflexivity.
+      * (* TLS *) rewrite Hexpr. sub_res. rewrite Hsemis. sub_res.
+        destruct l1 as [|[t3 c3] r4]; [reflexivity|]. rewrite mc_cons. destruct t3; reflexivity.
     + (* p_commas *) intros off ts. cbn [p_commas].
       destruct ts as [|[t c] r]; [reflexivity|]. rewrite mc_cons.
       destruct t; try reflexivity. rewrite Hexpr. sub_res. rewrite Hcommas. sub_res.
+    + (* p_semis *) intros off ts. cbn [p_semis].
+      destruct ts as [|[t c] r]; [reflexivity|]. rewrite mc_cons.
+      destruct t; try reflexivity. rewrite Hexpr. sub_res. rewrite Hsemis. sub_res.
+    + (* p_fields *) intros off ts. cbn [p_fields].
+      destruct ts as [|[t c] r]; [reflexivity|]. rewrite mc_cons.
+      destruct t; try reflexivity. rewrite field_name_mc. destruct (field_name a r) as [nm r1]. cbn [fst snd].
+      destruct r1 as [|[t2 c2] r2]; [reflexivity|]. rewrite mc_cons.
+      destruct t2; try reflexivity. rewrite skip_eol_mc, Hexpr. sub_res.
+      destruct l as [|[t3 c3] r4]; [reflexivity|]. rewrite mc_cons.
+      destruct t3; try reflexivity. rewrite Hfields. sub_res.
     + (* p_rules *) intros off ts. cbn [p_rules]. rewrite is_default_mr_mc, is_slit_rule_mc.
       destruct (is_default_mr ts); [reflexivity|]. destruct (is_slit_rule ts); [apply Hsrules|].
       destruct ts as [|[t c] r]; [reflexivity|]. rewrite mc_cons.
@@ -291,6 +315,27 @@ Proof.
   destruct t2; try reflexivity. rewrite <- mc_cons. rewrite IH. sub_res.
 Qed.
 
+Lemma p_fdefs_mc : forall n ts, p_fdefs n (mc ts) = rmap (p_fdefs n ts).
+Proof.
+  induction n as [|n IH]; intros ts; [reflexivity|]. cbn [p_fdefs]. rewrite skip_eol_mc.
+  destruct (skip_eol ts) as [|[t c] r]; [reflexivity|]. rewrite mc_cons. destruct t; try reflexivity.
+  rewrite skip_eol_mc, span_until_mc. destruct (span_until is_semi_or_rb (skip_eol r)) as [ty r1]. cbn [fst snd].
+  destruct r1 as [|[t2 c2] r2]; [reflexivity|]. rewrite mc_cons. destruct t2; try reflexivity.
+  rewrite skip_eol_mc. destruct (skip_eol r2) as [|[t3 c3] r3] eqn:E.
+  - rewrite mc_nil. rewrite IH. sub_res.
+  - rewrite mc_cons. destruct t3; try (rewrite IH; sub_res). reflexivity.
+Qed.
+
+Lemma p_extdefs_mc : forall n c ts, p_extdefs n (rho c) (mc ts) = rmap (p_extdefs n c ts).
+Proof.
+  induction n as [|n IH]; intros c ts; [reflexivity|]. cbn [p_extdefs].
+  destruct ts as [|[t c1] r]; [reflexivity|]. rewrite mc_cons.
+  destruct t; try reflexivity; rewrite <- mc_cons; rewrite span_until_mc;
+    (match goal with |- context [span_until never ?x] => destruct (span_until never x) as [l r1] end);
+    cbn [fst snd]; rewrite skip_eol_mc, end_of_block_mc;
+    (destruct (end_of_block c (skip_eol r1)); [reflexivity|]); rewrite IH; sub_res.
+Qed.
+
 Hypothesis rho0 : rho 0 = 0.
 
 Lemma p_root_mc : forall n ts, p_root n (mc ts) = p_root n ts.
@@ -299,7 +344,7 @@ Proof.
   destruct (skip_eol ts) as [|[t c] r]; [reflexivity|]. rewrite mc_cons.
   destruct t; try reflexivity.
   - (* TLET *) rewrite <- mc_cons. rewrite <- rho0 at 1.
-    destruct (relabel_all n) as (_ & _ & _ & _ & _ & _ & _ & _ & _ & _ & _ & _ & _ & Hstmt & _).
+    destruct (relabel_all n) as (_ & _ & _ & _ & _ & _ & _ & _ & _ & _ & _ & _ & _ & _ & _ & Hstmt & _).
     rewrite Hstmt. match goal with |- context [rmap ?x] => destruct x as [[s r1]| |] end; cbn [bind rmap]; try reflexivity.
     rewrite IH. reflexivity.
   - (* TTYPE *) rewrite span_until_mc. destruct (span_until is_eq r) as [hdr r1]. cbn [fst snd].
@@ -311,10 +356,22 @@ Proof.
     { intros x. rewrite span_until_mc. destruct (span_until never x) as [l r3]. cbn [fst snd]. rewrite IH. reflexivity. }
     destruct (skip_eol r2) as [|[t3 c3] r3] eqn:E; [reflexivity|]. rewrite mc_cons.
     destruct t3; try (rewrite <- mc_cons; apply OTHER).
-    rewrite <- mc_cons. rewrite p_cases_mc.
-    match goal with |- context [rmap ?x] => destruct x as [[cs r4]| |] end; cbn [bind rmap]; try reflexivity.
-    rewrite IH. reflexivity.
-  - (* TKW *) rewrite span_until_mc. destruct (span_until never r) as [l r1]. cbn [fst snd]. rewrite IH. reflexivity.
+    + rewrite <- mc_cons. rewrite p_cases_mc.
+      match goal with |- context [rmap ?x] => destruct x as [[cs r4]| |] end; cbn [bind rmap]; try reflexivity.
+      rewrite IH. reflexivity.
+    + rewrite p_fdefs_mc.
+      match goal with |- context [rmap ?x] => destruct x as [[fs r4]| |] end; cbn [bind rmap]; try reflexivity.
+      destruct r4 as [|[t4 c4] r5]; [reflexivity|]. rewrite mc_cons. destruct t4; try reflexivity.
+      rewrite IH. reflexivity.
+  - (* TKW *) destruct (is_pkginfo k).
+    + rewrite span_until_mc. destruct (span_until is_eq r) as [hdr r1]. cbn [fst snd].
+      destruct r1 as [|[t2 c2] r2]; [reflexivity|]. rewrite mc_cons. destruct t2; try reflexivity.
+      rewrite skip_eol_mc. destruct (skip_eol r2) as [|[t3 c3] r3]; [reflexivity|]. rewrite mc_cons.
+      rewrite <- rho0 at 1. rewrite rho_leb. destruct (c3 <=? 0); [reflexivity|].
+      rewrite <- mc_cons. rewrite p_extdefs_mc.
+      match goal with |- context [rmap ?x] => destruct x as [[ds r4]| |] end; cbn [bind rmap]; try reflexivity.
+      rewrite IH. reflexivity.
+    + rewrite span_until_mc. destruct (span_until never r) as [l r1]. cbn [fst snd]. rewrite IH. reflexivity.
 Qed.
 
 Theorem columns_only_compared_rho : forall n ts, parse_blocks n (mc ts) = parse_blocks n ts.
@@ -336,6 +393,6 @@ Theorem columns_only_compared_block : forall rho, strictly_monotone rho ->
     p_block n (rho off) (map_cols rho ts) =
     match p_block n off ts with Ok (b, r) => Ok (b, map_cols rho r) | Reject => Reject | Fuel => Fuel end.
 Proof.
-  intros rho M n off ts. destruct (relabel_all rho M n) as (_ & _ & _ & _ & _ & _ & _ & _ & _ & _ & _ & _ & _ & _ & Hb & _).
+  intros rho M n off ts. destruct (relabel_all rho M n) as (_ & _ & _ & _ & _ & _ & _ & _ & _ & _ & _ & _ & _ & _ & _ & _ & Hb & _).
   rewrite Hb. destruct (p_block n off ts) as [[b r]| |]; reflexivity.
 Qed.
